@@ -2,7 +2,10 @@ package main
 
 // C04 (body length) and C05 (checksum span and algorithm) on the frames with computed fields.
 
-import "fmt"
+import (
+	"fmt"
+	"strings"
+)
 
 type FrameCase struct {
 	MsgCase
@@ -165,6 +168,42 @@ func frameCheck(c *Ctx, fc FrameCase, wantLen, wantSum bool) {
 		after := h.g.Snapshot(fs, h.mPtr, fc.Mod, fc.Typ)
 		ts := c.sc.Mods[fc.Mod].Types[fc.Typ]
 		little := ts.Little()
+		// a computed field patched through a bytes.Buffer view that a later write may have invalidated: with the
+		// small model message the buffer never grows and the patch lands; the candidate is replayed with the
+		// message's lists and texts lengthened until the buffer has to grow
+		for _, note := range fs.notes {
+			if !strings.HasPrefix(note, "stale-view") {
+				continue
+			}
+			note := note
+			kind, ob := "frame_len", "length-patch-through-valid-view"
+			if !wantLen {
+				kind, ob = "frame_sum", "checksum-patch-through-valid-view"
+			}
+			c.Prove(fs, ob, False, func(val func(*Term) uint64) *Violation {
+				grow := func(f func(any) any) []map[string]any {
+					st := steps(val)
+					out := make([]map[string]any, len(st))
+					for i, sp := range st {
+						cp := map[string]any{}
+						for k, x := range sp {
+							cp[k] = x
+						}
+						if cp["op"] == "newmsg" && cp["value"] != nil {
+							cp["value"] = f(cp["value"])
+						}
+						out[i] = cp
+					}
+					return out
+				}
+				j := Judge{Kind: kind, Step: 2 + so, Frame: fi, Prior: fc.H}
+				return &Violation{Detail: "a computed field of the frame is patched through a stale buffer view: " + note, Model: map[string]any{"input": h.g.Concretize(h.m, val)},
+					Replay: &ReplayReq{Steps: steps(val), Judge: j,
+						Alt: &ReplayReq{Steps: grow(func(v any) any { return inflate(v, 40) }), Judge: j,
+							Alt: &ReplayReq{Steps: grow(func(v any) any { return inflateText(v, 700) }), Judge: j}}}}
+			})
+			break
+		}
 		if wantLen {
 			n := Sub(A.Len, CI(int64(fi.HdrSize+fi.SumSize)))
 			want := Extract(fi.LenSize*8-1, 0, n)
